@@ -8,6 +8,8 @@ package ps
 
 import (
 	"encoding/asn1"
+	"fmt"
+
 	math "github.com/IBM/mathlib"
 )
 
@@ -31,6 +33,10 @@ func (v *Verifier) Init(curve *math.Curve, msgLen int, thresholdPK []byte) error
 
 	if err := v.tpk.fromBytes(curve, tpk.TPK); err != nil {
 		return err
+	}
+
+	if len(v.tpk.Y) != v.pp.n {
+		return fmt.Errorf("threshold public key has %d components but %d were expected", len(v.tpk.Y), v.pp.n)
 	}
 
 	return nil
